@@ -94,7 +94,26 @@ def _startswith(a: pathlib.Path, b: pathlib.Path) -> bool:
         return False
 
 
-@functools.lru_cache(maxsize=8192)
+def _cached_per_file(code_filter: CodeFilter) -> CodeFilter:
+    """Remember the verdicts of a code filter.
+
+    The code object alone is no use as a cache key: code objects compare equal
+    when they differ only in co_filename, so the same function text at the same
+    lines of two files would share one verdict.
+    """
+
+    @functools.lru_cache(maxsize=8192)
+    def verdict(filename: str, code: CodeType) -> bool:
+        return code_filter(code)
+
+    @functools.wraps(code_filter)
+    def cached_code_filter(code: CodeType) -> bool:
+        return verdict(code.co_filename, code)
+
+    return cached_code_filter
+
+
+@_cached_per_file
 def default_code_filter(code: CodeType) -> bool:
     """A CodeFilter to exclude stdlib and site-packages."""
     # Filter code without a source file
